@@ -2,6 +2,7 @@ import RedactVerif.Proofs.Plain
 import RedactVerif.Proofs.Lab
 import RedactVerif.Props.C02
 import RedactVerif.Props.FactsSkelBuffer
+import RedactVerif.Props.TransBuffer
 import RedactVerif.Props.FactsSkelWriters
 /-
 C09 — SafeWriter contract: each payload lands once, in order, on its own side.
